@@ -134,10 +134,7 @@ def l1(ctx):
     obs = []
     tree = ctx.P.cls(TREE)
     for nm in ("import_one", "delete_one"):
-        fi = ctx.P.lookup_method(tree, nm)
-        if fi is None:
-            raise AnalysisError("TreeGitStore.%s not found" % nm)
-        ctx.functions_analysed.add(fi.qualname)
+        fi = ctx.home_method(TREE, nm)
         cfg = ctx.cfg(fi)
         found = False
         for n in cfg.stmt_nodes():
@@ -338,6 +335,25 @@ def l7(ctx):
         for path in map_names(ctx, cq):
             attr = path.split(".", 1)[1]
             vals = assigned_in_init(init, attr)
+            # ... or in the base-class constructors it chains to unconditionally (`super().__init__(...)` as a
+            # statement of the constructor body): every object still gets its own maps
+            cur, hops = init, 0
+            while cur is not None and hops < 4:
+                hops += 1
+                nxt = None
+                for st in cur.node.body:
+                    if isinstance(st, ast.Expr) and isinstance(st.value, ast.Call) and isinstance(st.value.func, ast.Attribute) \
+                            and st.value.func.attr == "__init__":
+                        rv = st.value.func.value
+                        if isinstance(rv, ast.Call) and dotted(rv.func) == "super" and cur.cls is not None:
+                            nxt = ctx.P.lookup_method(ci, "__init__", after=cur.cls)
+                        elif dotted(rv):
+                            k, o = ctx.P.resolve_dotted(cur.module, dotted(rv), cur)
+                            if k == "class" and o in ci.mro:
+                                nxt = o.methods.get("__init__")
+                if nxt is not None:
+                    vals = vals + assigned_in_init(nxt, attr)
+                cur = nxt
             fresh = bool(vals) and all(fresh_dict(v) for v in vals)
             shared = [c for c in ci.mro if attr in c.attrs and not (isinstance(c.attrs[attr], ast.Constant) and c.attrs[attr].value is None)]
             if not fresh and not shared:
